@@ -16,16 +16,29 @@ def sh(cmd, **kw):
     p = subprocess.run(cmd, cwd=wt, env=dict(env, TMPDIR=wt + "/tmp"), capture_output=True, text=True, **kw)
     return p.returncode, (p.stdout + p.stderr)[-1500:]
 os.makedirs(wt + "/tmp", exist_ok=True)
-src = open(demo).read()
-pkg = re.search(r"^package (\w+)", src, re.M).group(1).replace("_test", "")
-tests = re.findall(r"^func (Test\w+)\(", src, re.M)
-tags = "test verif"
-dst = os.path.join(wt, pkg, "zz_demo%s_test.go" % i)
-def rundemo():
-    shutil.copy(demo, dst)
-    rc, o = sh(["go", "test", "-tags", tags, "-count=1", "-run", "^(" + "|".join(tests) + ")$", "./" + pkg + "/"], timeout=600)
-    os.remove(dst)
-    return rc, o
+progdir = os.path.join(out, "demo%s" % i)
+if not os.path.exists(demo) and os.path.exists(os.path.join(progdir, "main.go")):
+    # the demonstration is a program: exit code 0 = property holds
+    demo = os.path.join(progdir, "main.go")
+    pkg, tests, tags = "zz_demo%s" % i, ["main"], ""
+    def rundemo():
+        shutil.copytree(progdir, os.path.join(wt, pkg))
+        rc, o = sh(["go", "run", "./" + pkg], timeout=600)
+        shutil.rmtree(os.path.join(wt, pkg))
+        return rc, o
+else:
+    src = open(demo).read()
+    pkg = re.search(r"^package (\w+)", src, re.M).group(1).replace("_test", "")
+    tests = re.findall(r"^func (Test\w+)\(", src, re.M)
+    tags = "test verif"
+    if re.search(r"^//go:build !test", src, re.M):
+        tags = "verif"          # a demonstration for the production build
+    dst = os.path.join(wt, pkg, "zz_demo%s_test.go" % i)
+    def rundemo():
+        shutil.copy(demo, dst)
+        rc, o = sh(["go", "test", "-vet=off", "-tags", tags, "-count=1", "-run", "^(" + "|".join(tests) + ")$", "./" + pkg + "/"], timeout=600)
+        os.remove(dst)
+        return rc, o
 rc0, o0 = rundemo()
 res["demo_passes_unchanged"] = (rc0 == 0)
 rc, o = sh(["git", "apply", patch]); res["applies"] = (rc == 0)
